@@ -71,7 +71,19 @@ def annotations_read_fresh_state(chk, rid):
         and isinstance(x.ctx, ast.Load):
       reads.add(x.attr)
   cls = repo.by_name('functors').cls('Functors')
-  state = {a for a in reads if a not in cls.methods}
+  # class-level constants (assigned in the class body, never through self) are not state
+  consts = set()
+  for st in cls.node.body:
+    if isinstance(st, ast.Assign):
+      consts |= {t.id for t in st.targets if isinstance(t, ast.Name)}
+  for fi_ in cls.methods.values():
+    for x in walk_local(fi_.node):
+      if isinstance(x, (ast.Assign, ast.AugAssign)):
+        for t in (x.targets if isinstance(x, ast.Assign) else [x.target]):
+          d = dotted(t)
+          if d and d.startswith('self.'):
+            consts.discard(d[5:].split('.')[0])
+  state = {a for a in reads if a not in cls.methods and a not in consts}
   if not state:
     raise AnalysisError('CollectAnnotations reads no state of Functors')
   stale = sorted(a for a in state if a not in fresh)
